@@ -596,16 +596,17 @@ def real_threads(ctx):
 
 def run(ctx):
     b = build.build("sched")
-    tlc_models(ctx)
-    ring1(ctx, b)
-    ring1_wide(ctx, b)
-    ring1_systematic(ctx, b)
-    ring1_model_replay(ctx, b)
-    ring1_steps(ctx, b)
-    ring2(ctx, b)
-    ring3(ctx, b)
-    systematic_clients(ctx, b)
-    real_threads(ctx)
+    import time
+    phases = {}
+    for name, fn in (("tlc_models", lambda: tlc_models(ctx)), ("ring1", lambda: ring1(ctx, b)), ("ring1_wide", lambda: ring1_wide(ctx, b)),
+                     ("ring1_systematic", lambda: ring1_systematic(ctx, b)), ("ring1_model_replay", lambda: ring1_model_replay(ctx, b)),
+                     ("ring1_steps", lambda: ring1_steps(ctx, b)), ("ring2", lambda: ring2(ctx, b)), ("ring3", lambda: ring3(ctx, b)),
+                     ("systematic_clients", lambda: systematic_clients(ctx, b)), ("real_threads", lambda: real_threads(ctx))):
+        t0 = time.time()
+        fn()
+        phases[name] = round(time.time() - t0)
+        core.dbg("C13 phase %s %ds" % (name, phases[name]))
+    ctx.cov["phase_seconds"] = phases
     cov = {"states": ctx.cov.get("states", 0), "transitions": ctx.cov.get("transitions", 0),
            "traces_validated_against_impl": ctx.cov.get("traces_validated_against_impl", 0),
            "evaluations": ctx.cov.get("schedules", 0), "distinct_nontrivial": ctx.cov.get("schedules", 0), "exhaustive": False}
